@@ -196,7 +196,7 @@ class RealRun:
         for name, cl in self.world.clients.items():
             if getattr(cl, "closed_at", None) is None and any(k == "closed" for k, _ in cl.events):
                 cl.closed_at = self.world.stepno
-        if act["a"] in ("Drop", "Dup", "SwapS2C", "TamperS2C", "Inject", "AppClose", "ConnFail", "ConnAbort", "SrvCloseBegin", "LateDeliver", "AppAllocate", "SrvSend",
+        if act["a"] in ("Drop", "Dup", "SwapS2C", "TamperS2C", "Inject", "AppClose", "ConnFail", "ConnAbort", "SrvCloseBegin", "LateDeliver", "AppAllocate", "SrvSend", "ArmRaise",
                         "AppInput", "ArmClose"):
             self.nontrivial.add(act["a"])
         if spec_act is not None:
@@ -588,6 +588,28 @@ def srvclose_case(tid, during, after, who="A"):
         n += 1
     drained = run.drain() and drained
     return run, bool(drained), drained, ok
+
+
+def c18_raise_case(tid, kind, nmsgs, then_close):
+    """The delegate of B raises from inside its `kind` callback (an application bug).  Whatever the library makes of
+    that, the notifications it delivers must still come at most once each, in causal order, with closed last - also
+    when more peer messages arrive afterwards and when the application then calls close()."""
+    run = RealRun(tid, "c18-raise")
+    w = run.world
+    for c in ("A", "B"):
+        run.apply({"a": "ConnOpen", "c": c})
+    run.apply({"a": "ArmRaise", "c": "B", "kind": kind})
+    for c in ("A", "B"):
+        run.apply({"a": "AppSetCode", "c": c, "code": "4-alpha-beta"})
+    run.apply({"a": "AppSend", "c": "A", "data": b"m:A:0".hex()})
+    run.drain()
+    for i in range(1, nmsgs):
+        run.apply({"a": "AppSend", "c": "A", "data": ("m:A:%d" % i).encode().hex()})
+    run.drain()
+    if then_close:
+        run.apply({"a": "AppClose", "c": "B"})
+    drained = run.drain()
+    return run, False, drained
 
 
 def c18_case(tid, k, j, how):
@@ -1241,6 +1263,21 @@ def run_pipeline(prop, tier, v, quick):
                         records.append(run_.finish(drained, goal=goal))
             cov["unechoed_family_cases"] = n
             cov["unechoed_family_as_intended"] = nok
+        if prop == "C18":
+            n = 0
+            for kind in ("welcome", "code", "key", "verifier", "versions", "message"):
+                for nmsgs in (1, 3):
+                    for then_close in (False, True):
+                        tid += 1
+                        n += 1
+                        try:
+                            run_, goal, drained = c18_raise_case(tid, kind, nmsgs, then_close)
+                        except Exception as e:
+                            cov.setdefault("family_errors", []).append(repr(e)[:120])
+                            continue
+                        runs[tid] = run_
+                        records.append(run_.finish(drained, goal=False))
+            cov["c18_raise_cases"] = n
         if prop == "C18":
             n = 0
             for how in ("happy", "wrong", "pending"):
